@@ -36,11 +36,17 @@ pub struct Plan {
     pub kind: String,
     pub file: FileSpec,
     pub faults: Faults,
+    /// kind "bgzf-mt": the multithreaded BGZF writer under thread-sim (C03 engine); `file` is unused
+    #[serde(default)]
+    pub mt: Option<super::c03::Plan>,
+    /// for a narrowed "bgzf-mt" plan: the failing sink call indices to run (all if empty)
+    #[serde(default)]
+    pub mt_calls: Vec<u64>,
 }
 
-fn plans_for(n_calls: u64, total_bytes: usize, rng: &mut Rng) -> Vec<WritePlan> {
+fn plans_for(n_calls: u64, total_bytes: usize, slow: bool, rng: &mut Rng) -> Vec<WritePlan> {
     let mut out = Vec::new();
-    let large = total_bytes > 60_000;
+    let large = total_bytes > 60_000 || slow;
     let ks: Vec<u64> = if n_calls <= 400 && !large {
         (0..n_calls).collect()
     } else {
@@ -176,7 +182,7 @@ impl C14 {
     fn run_one(&self, made: &Made, reference: &[u8], wp: &WritePlan, ctx: &mut RunCtx) -> Option<Violation> {
         let kind = made.spec.kind;
         let sink = SimWrite::new(wp.clone());
-        let res = crate::kernel::fresh_thread(|| catch(|| kinds::write_to(kind, &made.model, sink.clone())));
+        let res = crate::kernel::fresh_thread_if(matches!(kind, Kind::Cram | Kind::Crai), || catch(|| kinds::write_to(kind, &made.model, sink.clone())));
         let c = sink.counters();
         let s = &mut *ctx.stats;
         s.evaluations += 1;
@@ -264,6 +270,72 @@ impl C14 {
     }
 }
 
+impl C14 {
+    /// The multithreaded BGZF writer: fault-free run under thread-sim counts the sink calls N; then
+    /// every call k < N fails once (sticky and transient alternating), under rotating schedules.
+    fn run_mt(&self, p: &Plan, mp: &super::c03::Plan, ctx: &mut RunCtx) -> Vec<Finding> {
+        use super::c03::{C03, MtFault, Sched};
+        let mut findings = Vec::new();
+        let base = C03.run(mp, ctx.stats);
+        ctx.stats.kind("bgzf-mt");
+        if let Some(v) = base.violation {
+            findings.push(Finding { violation: v, plan: serde_json::to_value(p).unwrap() });
+            return findings;
+        }
+        let n = base.sink_calls;
+        let all = n <= 80;
+        let ks: Vec<u64> = if !p.mt_calls.is_empty() {
+            p.mt_calls.clone()
+        } else if all {
+            (0..n).collect()
+        } else {
+            // first/last 20 calls and 40 seeded ones
+            let seed = match p.faults {
+                Faults::Enumerate { seed } => seed,
+                _ => 1,
+            };
+            let mut rng = Rng::new(seed);
+            let mut v: Vec<u64> = (0..20).collect();
+            v.extend(n - 20..n);
+            for _ in 0..40 {
+                v.push(rng.below(n));
+            }
+            v.sort();
+            v.dedup();
+            v
+        };
+        let scheds = [Sched::Random, Sched::FillThenLifo, Sched::Pct { depth: 2 }, Sched::BackgroundFirst];
+        let mut seen: std::collections::BTreeSet<String> = Default::default();
+        for &k in &ks {
+            let mut q = mp.clone();
+            q.fault = MtFault::SinkFail { k, sticky: k % 2 == 0 };
+            if p.mt_calls.is_empty() {
+                q.sched = scheds[(k % 4) as usize].clone();
+                q.sched_seed = mp.sched_seed ^ k;
+            }
+            let out = C03.run(&q, ctx.stats);
+            ctx.stats.nontrivial(Fnv::new().u64(super::c01::plan_hash(&q)).get());
+            if let Some(mut v) = out.violation {
+                v.component = "bgzf-mt:writer".into();
+                if seen.insert(v.signature("C14")) {
+                    let mut np = p.clone();
+                    let mut q2 = q.clone();
+                    q2.fault = MtFault::None;
+                    q2.replay = Some(out.decisions);
+                    np.mt = Some(q2);
+                    np.mt_calls = vec![k];
+                    findings.push(Finding { violation: v, plan: serde_json::to_value(np).unwrap() });
+                }
+            }
+        }
+        if p.mt_calls.is_empty() && all {
+            ctx.stats.exhaustive.insert(format!("every one of the {n} sink calls of the multithreaded BGZF writer failing (plan {:016x})", super::c01::plan_hash(mp)));
+            ctx.stats.probe("writers_enumerated_at_every_call", 1);
+        }
+        findings
+    }
+}
+
 fn devfull(kind: Kind, model: &Model) -> Option<std::io::Result<()>> {
     const P: &str = "/dev/full";
     Some(match (kind, model) {
@@ -306,6 +378,24 @@ impl Check for C14 {
         } else {
             Faults::Enumerate { seed: rng.next_u64() }
         };
+        // every 20th case: the multithreaded BGZF writer, every sink call failing in turn
+        if idx % 20 == 19 {
+            let c03plan = super::c03::C03.plan(master ^ 0x14, idx, _tier);
+            if let Ok(mut mp) = serde_json::from_value::<super::c03::Plan>(c03plan) {
+                if let super::c03::Scenario::Writer { finish, .. } = &mut mp.scenario {
+                    *finish = true;
+                    mp.fault = super::c03::MtFault::None;
+                    return serde_json::to_value(Plan {
+                        kind: "bgzf-mt".into(),
+                        file: FileSpec { kind: Kind::Bgzf, size_class: 0, seed: 0 },
+                        faults: Faults::Enumerate { seed: rng.next_u64() },
+                        mt: Some(mp),
+                        mt_calls: Vec::new(),
+                    })
+                    .unwrap();
+                }
+            }
+        }
         serde_json::to_value(Plan {
             kind: kind.name().into(),
             file: FileSpec {
@@ -314,11 +404,16 @@ impl Check for C14 {
                 seed: rng.next_u64(),
             },
             faults,
+            mt: None,
+            mt_calls: Vec::new(),
         })
         .unwrap()
     }
     fn execute(&self, plan: &Value, ctx: &mut RunCtx) -> Vec<Finding> {
         let p: Plan = serde_json::from_value(plan.clone()).expect("bad C14 plan");
+        if let Some(mp) = &p.mt {
+            return self.run_mt(&p, mp, ctx);
+        }
         let made = match kinds::make(&p.file) {
             Ok(m) => m,
             Err(e) => panic!("harness: cannot make {:?}: {e}", p.file),
@@ -335,6 +430,8 @@ impl Check for C14 {
                         kind: p.kind.clone(),
                         file: p.file.clone(),
                         faults,
+                        mt: None,
+                        mt_calls: Vec::new(),
                     })
                     .unwrap(),
                 });
@@ -362,7 +459,7 @@ impl Check for C14 {
         }
         // fault-free reference run on the simulated sink: counts the calls; (b) decodes to the model
         let sink0 = SimWrite::new(WritePlan::plain());
-        let r0 = crate::kernel::fresh_thread(|| catch(|| kinds::write_to(kind, &made.model, sink0.clone())));
+        let r0 = crate::kernel::fresh_thread_if(matches!(kind, Kind::Cram | Kind::Crai), || catch(|| kinds::write_to(kind, &made.model, sink0.clone())));
         match r0 {
             Ok(Ok(())) => {}
             Ok(Err(e)) => panic!("harness: fault-free write of {:?} failed: {e}", p.file),
@@ -384,13 +481,21 @@ impl Check for C14 {
         let plans: Vec<WritePlan> = match &p.faults {
             Faults::Enumerate { seed } => {
                 let mut rng = Rng::new(*seed);
-                plans_for(c0.calls, reference.len(), &mut rng)
+                // writers that cost tens of milliseconds per run (CRAM with bzip2/lzma/fqzcomp
+                // blocks or many containers) get the reduced position set; decided from the plan,
+                // never from a clock
+                let slow = match &made.model {
+                    Model::Cram { opts, model, .. } => matches!(opts.encoder, 3 | 4 | 9) || model.records.len() > 40,
+                    _ => false,
+                };
+                plans_for(c0.calls, reference.len(), slow, &mut rng)
             }
             Faults::List(v) => v.clone(),
             Faults::DevFull => unreachable!(),
         };
         let file_hash = prng::hash_bytes(&reference);
-        let exhaustive = matches!(p.faults, Faults::Enumerate { .. }) && c0.calls <= 400 && reference.len() <= 60_000;
+        let slow_cram = matches!(&made.model, Model::Cram { opts, model, .. } if matches!(opts.encoder, 3 | 4 | 9) || model.records.len() > 40);
+        let exhaustive = matches!(p.faults, Faults::Enumerate { .. }) && c0.calls <= 400 && reference.len() <= 60_000 && !slow_cram;
         for wp in &plans {
             if let Some(v) = self.run_one(&made, &reference, wp, ctx) {
                 report(v, Faults::List(vec![wp.clone()]), &mut findings);
